@@ -322,8 +322,8 @@ def run(ctx):
                                 "fix": "fixes/C13-insert-self.patch" if fid == "F18" else "fixes/C13-clone-firstchild.patch"})
 
     # F32: substringData with a count beyond the end writes the terminator at newString[count] (out of bounds; a count
-    # of 2^32-1 faults).  Probed in a process of its own; while the defect is present counts >= 4096 are clipped in the
-    # sweeps (exactly the class: substringData, count >= 4096 > length) so that the rest of the check still runs.
+    # of 2^32-1 faults).  Fixed in /repo as d71d816; probed first in a process of its own so that a regression is
+    # reported under its own tag.
     W_SUBSTR = "1 1 ; cr 0 t - %s ; ss 1 0 4294967295 ; dd 1 0 0" % hx("abcdef")
     rcS, outS, errS = run_bin(xh, [], [W_SUBSTR])
     f32_present = rcS != 0 or not outS
@@ -338,9 +338,6 @@ def run(ctx):
                                   "model_repaired": run_bin(xm, ["m11"], [W_SUBSTR])[1][0][:500], "what": what,
                                   "fix": "fixes/C13-substring-count.patch"})
 
-    def clip_ss(line):
-        return re.sub(r"(; ss \S+ \d+ )(\d+)", lambda m: m.group(1) + str(min(int(m.group(2)), 4095)), line)
-
     # ---- 2. cases
     cases = []
     if ctx.replay:
@@ -353,8 +350,6 @@ def run(ctx):
         gen_counts(ctx, cases)
         gen_rename(ctx, cases)
         gen_random(ctx, cases)
-    if f32_present:
-        cases = [(k, clip_ss(l)) for k, l in cases]
     lines = [c[1] for c in cases]
     impl, crashes = run_impl(ctx, xh, lines)
     rc2, model, err2 = run_bin(xm, [mode], lines)
